@@ -78,6 +78,27 @@ def structured_scalars():
     return sorted(out)
 
 
+def montgomery_structured(limit=1200):
+    """scalars a for which a*R^k mod l (R = 2^256, k in {-2,-1,1,2}) is a structured value (a zero / all-ones 64-bit
+    limb, a value in [2^252, l), l-1, ...): the inputs on which dropped carries / borrows in the word-by-word
+    Montgomery code show, which random testing hits with probability ~2^-64"""
+    R = 2**256
+    Ri = pow(R, L - 2, L)
+    T = structured_scalars()
+    T += [2**252 + d for d in (0, 1, 2, 2**64 - 1, 2**64, 2**64 + 1, 2**124, 2**124 + 2**64)] + [L - d for d in (1, 2, 3, 2**64, 2**64 + 1, 2**124)]
+    out = []
+    seen = set()
+    for t in T:
+        t %= L
+        for mult in (Ri, Ri * Ri % L, R % L, R * R % L, 1):
+            a = t * mult % L
+            if a not in seen:
+                seen.add(a)
+                out.append(a)
+    # interleave so that a prefix of the list covers every multiplier
+    return out[:limit] if limit else out
+
+
 def scalar_words(k):
     v = k % L * (2**256) % L
     return "w:" + ",".join(str((v >> (64 * i)) & (2**64 - 1)) for i in range(4))
